@@ -29,6 +29,7 @@ const REQUIRED: &[&str] = &[
     "execute-member-owner-auth",
     "execute-target-fails",
     "transfer-ownership",
+    "advance-ledger",
 ];
 
 fn gen_val(rng: &mut Rng, addrs: &[Address]) -> ScVal {
@@ -69,6 +70,13 @@ pub fn run(ctx: &Ctx, rep: &mut Report) {
         for _ in 0..40 {
             if !alive {
                 break;
+            }
+            if rng.chance(1, 10) {
+                let d = rng.ledger_jump();
+                if u.advance(d) {
+                    rep.step(format!("ledger advances by {}", d));
+                    rep.count("advance-ledger");
+                }
             }
             let choice = rng.weighted(&[3, 3, 1, 8]);
             let ci = rng.usize(cands.len());
